@@ -141,6 +141,13 @@ func c12Eval(c *fw.Ctx, k c12Case) (sig, desc string, nontrivial bool) {
 	(&BFile{L: l, Rings: r2}).Write(filepath.Join(root, "it", "p+q&r", "a b.wsp"))
 	(&BFile{L: l, Rings: r1}).Write(filepath.Join(root, "g", "x+y&z=1.wsp"))
 	(&BFile{L: l, Rings: r2}).Write(filepath.Join(root, "g", "x y.wsp"))
+	// multi-level patterns over directory names where one is a strict prefix of a sibling ('-' sorts before '/' and '.')
+	(&BFile{L: l, Rings: r1}).Write(filepath.Join(root, "ml", "web", "a.wsp"))
+	(&BFile{L: l, Rings: r2}).Write(filepath.Join(root, "ml", "web-01", "a.wsp"))
+	(&BFile{L: l, Rings: r2}).Write(filepath.Join(root, "ml", "web", "b.wsp"))
+	(&BFile{L: l, Rings: r1}).Write(filepath.Join(root, "mi", "web", "a.wsp"))
+	(&BFile{L: l, Rings: r2}).Write(filepath.Join(root, "mi-b", "web", "a.wsp"))
+	(&BFile{L: l, Rings: r2}).Write(filepath.Join(root, "mi", "web-01", "a.wsp"))
 	file, glob, item, srcpat := "a.wsp", "g/*.wsp", "it/*", "*.wsp"
 	switch k.Target {
 	case "missing":
@@ -149,6 +156,8 @@ func c12Eval(c *fw.Ctx, k c12Case) (sig, desc string, nontrivial bool) {
 		file, glob, item, srcpat = "nodir/a.wsp", "g/z*.wsp", "no/*", "*.wsp"
 	case "odd-name":
 		file, glob, item, srcpat = "sp ace%41#.wsp", "g/c*.wsp", "it/z*", "a*.wsp"
+	case "multi-level":
+		file, glob, item, srcpat = "ml/web/a.wsp", "ml/*/*.wsp", "mi*/w*", "*.wsp"
 	case "odd-pattern":
 		file, glob, item, srcpat = "g/x+y&z=1.wsp", "g/x+y&z*.wsp", "it/p+q&r", "a+b&*.wsp"
 	case "big":
@@ -204,8 +213,8 @@ func c12Eval(c *fw.Ctx, k c12Case) (sig, desc string, nontrivial bool) {
 			cmd = &wcmd.CopyCommand{SrcBase: base, SrcRelPath: glob, DestBase: ddir, AggregationMethod: wt.Sum, ArchiveInfoList: archList(l.Archs), From: tsOf(k.From), Until: tsOf(k.Until), ArchiveID: k.Archive, TextOut: out, CopyNaN: k.Sort}
 		case "sum-diff":
 			// every item has a destination: a missing one plus another fault would be a two-fault race (see DESIGN 15.2)
-			for i, it := range []string{"x", "y", "z w", "p+q&r", "p q"} {
-				(&BFile{L: l, Rings: [][]wsp.Ring{r1, r2}[i%2]}).Write(filepath.Join(ddir, "it", it, "sum.wsp"))
+			for i, it := range []string{"it/x", "it/y", "it/z w", "it/p+q&r", "it/p q", "mi/web", "mi/web-01", "mi-b/web"} {
+				(&BFile{L: l, Rings: [][]wsp.Ring{r1, r2}[i%2]}).Write(filepath.Join(ddir, it, "sum.wsp"))
 			}
 			cmd = &wcmd.SumDiffCommand{SrcBase: base, ItemPattern: item, SrcPattern: srcpat, DestBase: ddir, DestRelPath: "sum.wsp", From: tsOf(k.From), Until: tsOf(k.Until), ArchiveID: k.Archive, TextOut: out}
 		}
@@ -216,7 +225,7 @@ func c12Eval(c *fw.Ctx, k c12Case) (sig, desc string, nontrivial bool) {
 		}
 		o.es += firstLine(pn)
 		if strings.HasPrefix(k.Cmd, "copy") {
-			for _, f := range []string{"a.wsp", "g/a.wsp", "g/b.wsp", "g/c d+e&f.wsp", "sp ace%41#.wsp", "big/a.wsp", "g/x+y&z=1.wsp", "g/x y.wsp"} {
+			for _, f := range []string{"a.wsp", "g/a.wsp", "g/b.wsp", "g/c d+e&f.wsp", "sp ace%41#.wsp", "big/a.wsp", "g/x+y&z=1.wsp", "g/x y.wsp", "ml/web/a.wsp", "ml/web-01/a.wsp", "ml/web/b.wsp"} {
 				b, _ := os.ReadFile(filepath.Join(ddir, f))
 				o.dest = append(o.dest, b...)
 			}
@@ -275,7 +284,7 @@ func runC12(c *fw.Ctx) {
 				}
 			}
 			for _, cmd := range []string{"view", "view-raw", "sum", "diff", "diff-glob", "copy", "copy-glob", "sum-diff"} {
-				for _, target := range []string{"existing", "missing", "nomatch", "odd-name", "odd-pattern"} {
+				for _, target := range []string{"existing", "missing", "nomatch", "odd-name", "odd-pattern", "multi-level"} {
 					for ai, arch := range []int{-1, 0, 1, 2} {
 						for wi, w := range wins {
 							idx++
